@@ -248,7 +248,179 @@ namespace svmon
     bool operator!= (const LedgerAlloc<U, Cfg>& o) const noexcept { return ! (*this == o); }
   };
 
+  // ---------------------------------------------------------------------------------------------
+  // Fancy pointer (Allocator requirements: NullablePointer + random access iterator over contiguous
+  // storage, pointer_traits::pointer_to, conversions T -> const T -> void).  Deliberately NOT implicitly
+  // convertible to a raw pointer.  Two words wide: the second word must always be derived from the first,
+  // so a pointer value the container produced by anything but copying/arithmetic (uninitialised member,
+  // byte garbage) is caught at its first use (monitor key `fancy.corrupt-pointer`).
+  struct FancyStats { long derefs, arith, made, corrupt; };
+  inline FancyStats& FSTATS () { static FancyStats s = { 0, 0, 0, 0 }; return s; }
+  static const std::uintptr_t FANCY_SALT = static_cast<std::uintptr_t> (0x5AFE5AFE5AFE5AFEull);
+
+  inline void fancy_corrupt (const void *p, std::uintptr_t salt)
+  {
+    ++FSTATS ().corrupt;
+    violate ("C02", "fancy.corrupt-pointer", "a pointer value was used that no pointer operation produced (ptr %p, check word %lx)", p, static_cast<unsigned long> (salt));
+  }
+
+  template <typename T> struct FancyPtr;
+
+  template <typename T>
+  struct FancyPtrBase
+  {
+    T *p; std::uintptr_t salt;
+    FancyPtrBase () noexcept : p (0), salt (FANCY_SALT) { }
+    explicit FancyPtrBase (T *q) noexcept : p (q), salt (reinterpret_cast<std::uintptr_t> (const_cast<const volatile void *> (static_cast<const volatile void *> (q))) ^ FANCY_SALT) { }
+    T *get () const noexcept
+    {
+      if (salt != (reinterpret_cast<std::uintptr_t> (const_cast<const volatile void *> (static_cast<const volatile void *> (p))) ^ FANCY_SALT)) fancy_corrupt (const_cast<const void *> (static_cast<const volatile void *> (p)), salt);
+      return p;
+    }
+    explicit operator bool () const noexcept { return get () != 0; }
+  };
+
+  template <> struct FancyPtr<void> : FancyPtrBase<void>
+  {
+    typedef void element_type;
+    template <typename U> using rebind = FancyPtr<U>;
+    FancyPtr () noexcept { }
+    FancyPtr (std::nullptr_t) noexcept { }
+    explicit FancyPtr (void *q) noexcept : FancyPtrBase<void> (q) { }
+    template <typename U, typename std::enable_if<! std::is_const<U>::value>::type * = nullptr>
+    FancyPtr (const FancyPtr<U>& o) noexcept : FancyPtrBase<void> (o.get ()) { }
+  };
+
+  template <> struct FancyPtr<const void> : FancyPtrBase<const void>
+  {
+    typedef const void element_type;
+    template <typename U> using rebind = FancyPtr<U>;
+    FancyPtr () noexcept { }
+    FancyPtr (std::nullptr_t) noexcept { }
+    explicit FancyPtr (const void *q) noexcept : FancyPtrBase<const void> (q) { }
+    template <typename U>
+    FancyPtr (const FancyPtr<U>& o) noexcept : FancyPtrBase<const void> (o.get ()) { }
+  };
+
+  template <typename T>
+  struct FancyPtr : FancyPtrBase<T>
+  {
+    typedef T element_type;
+    typedef typename std::remove_cv<T>::type value_type;
+    typedef std::ptrdiff_t difference_type;
+    typedef T *pointer;
+    typedef T& reference;
+    typedef std::random_access_iterator_tag iterator_category;
+#if defined (__cpp_lib_concepts) || (defined (__cpp_concepts) && __cplusplus > 201703L)
+    typedef std::contiguous_iterator_tag iterator_concept;
+#endif
+    template <typename U> using rebind = FancyPtr<U>;
+
+    FancyPtr () noexcept { }
+    FancyPtr (std::nullptr_t) noexcept { }
+    // The header converts raw pointers to `pointer` implicitly (inline storage, to_address round trips) and
+    // static_casts void pointers to it, exactly as the repository's own pointer_wrapper test type allows; a pointer
+    // type offering only pointer_traits::pointer_to does not compile with it (noted in DESIGN.md, outside C01-C20).
+    FancyPtr (T *q) noexcept : FancyPtrBase<T> (q) { ++FSTATS ().made; }
+    template <typename U = T, typename std::enable_if<std::is_const<U>::value, bool>::type = true>
+    explicit FancyPtr (const void *q) noexcept : FancyPtrBase<T> (static_cast<T *> (q)) { }
+    explicit FancyPtr (void *q) noexcept : FancyPtrBase<T> (static_cast<T *> (q)) { }
+    template <typename U, typename std::enable_if<std::is_convertible<U *, T *>::value && ! std::is_same<U, T>::value>::type * = nullptr>
+    FancyPtr (const FancyPtr<U>& o) noexcept : FancyPtrBase<T> (o.get ()) { }
+    // void pointer -> object pointer is explicit, as static_cast is for raw pointers
+    template <typename V, typename std::enable_if<std::is_void<V>::value && (std::is_const<T>::value || ! std::is_const<V>::value)>::type * = nullptr>
+    explicit FancyPtr (const FancyPtr<V>& o) noexcept : FancyPtrBase<T> (static_cast<T *> (o.get ())) { }
+
+    static FancyPtr pointer_to (T& r) noexcept { return FancyPtr (std::addressof (r)); }
+
+    T& operator* () const noexcept { ++FSTATS ().derefs; return *this->get (); }
+    T *operator-> () const noexcept { ++FSTATS ().derefs; return this->get (); }
+    T& operator[] (difference_type n) const noexcept { ++FSTATS ().derefs; return this->get ()[n]; }
+    FancyPtr& operator++ () noexcept { *this = FancyPtr (this->get () + 1); return *this; }
+    FancyPtr operator++ (int) noexcept { FancyPtr t (*this); ++*this; return t; }
+    FancyPtr& operator-- () noexcept { *this = FancyPtr (this->get () - 1); return *this; }
+    FancyPtr operator-- (int) noexcept { FancyPtr t (*this); --*this; return t; }
+    FancyPtr& operator+= (difference_type n) noexcept { ++FSTATS ().arith; *this = FancyPtr (this->get () + n); return *this; }
+    FancyPtr& operator-= (difference_type n) noexcept { ++FSTATS ().arith; *this = FancyPtr (this->get () - n); return *this; }
+    FancyPtr operator+ (difference_type n) const noexcept { ++FSTATS ().arith; return FancyPtr (this->get () + n); }
+    FancyPtr operator- (difference_type n) const noexcept { ++FSTATS ().arith; return FancyPtr (this->get () - n); }
+    friend FancyPtr operator+ (difference_type n, const FancyPtr& q) noexcept { return q + n; }
+  };
+
+  template <typename T, typename U>
+  inline auto operator- (const FancyPtr<T>& a, const FancyPtr<U>& b) noexcept -> decltype (a.get () - b.get ()) { return a.get () - b.get (); }
+  template <typename T, typename U> inline bool operator== (const FancyPtr<T>& a, const FancyPtr<U>& b) noexcept { return a.get () == b.get (); }
+  template <typename T, typename U> inline bool operator!= (const FancyPtr<T>& a, const FancyPtr<U>& b) noexcept { return a.get () != b.get (); }
+  template <typename T, typename U> inline bool operator<  (const FancyPtr<T>& a, const FancyPtr<U>& b) noexcept { return std::less<const volatile void *> () (a.get (), b.get ()); }
+  template <typename T, typename U> inline bool operator>  (const FancyPtr<T>& a, const FancyPtr<U>& b) noexcept { return b < a; }
+  template <typename T, typename U> inline bool operator<= (const FancyPtr<T>& a, const FancyPtr<U>& b) noexcept { return ! (b < a); }
+  template <typename T, typename U> inline bool operator>= (const FancyPtr<T>& a, const FancyPtr<U>& b) noexcept { return ! (a < b); }
+  template <typename T> inline bool operator== (const FancyPtr<T>& a, std::nullptr_t) noexcept { return a.get () == 0; }
+  template <typename T> inline bool operator== (std::nullptr_t, const FancyPtr<T>& a) noexcept { return a.get () == 0; }
+  template <typename T> inline bool operator!= (const FancyPtr<T>& a, std::nullptr_t) noexcept { return a.get () != 0; }
+  template <typename T> inline bool operator!= (std::nullptr_t, const FancyPtr<T>& a) noexcept { return a.get () != 0; }
+
+  // raw address of whatever a container hands out as `pointer`
+  template <typename T> inline T *raw (T *p) noexcept { return p; }
+  template <typename T> inline T *raw (const FancyPtr<T>& p) noexcept { return p.get (); }
+
+  // LedgerAlloc whose `pointer` is FancyPtr<T>
+  template <typename T, typename Cfg>
+  struct FancyLedgerAlloc : LedgerAllocMax<T, Cfg>
+  {
+    typedef T value_type;
+    typedef typename Cfg::size_type size_type;
+    typedef std::ptrdiff_t difference_type;
+    typedef FancyPtr<T> pointer;
+    typedef FancyPtr<const T> const_pointer;
+    typedef FancyPtr<void> void_pointer;
+    typedef FancyPtr<const void> const_void_pointer;
+    typedef std::integral_constant<bool, Cfg::pocca> propagate_on_container_copy_assignment;
+    typedef std::integral_constant<bool, Cfg::pocma> propagate_on_container_move_assignment;
+    typedef std::integral_constant<bool, Cfg::pocs> propagate_on_container_swap;
+    typedef std::integral_constant<bool, Cfg::always_equal> is_always_equal;
+    typedef Cfg config;
+
+    int id;
+
+    FancyLedgerAlloc () noexcept : id (1) { }
+    explicit FancyLedgerAlloc (int i) noexcept : id (i) { }
+    FancyLedgerAlloc (const FancyLedgerAlloc& o) noexcept : id (o.id) { }
+    FancyLedgerAlloc& operator= (const FancyLedgerAlloc& o) noexcept { id = o.id; return *this; }
+    template <typename U>
+    FancyLedgerAlloc (const FancyLedgerAlloc<U, Cfg>& o) noexcept : id (o.id) { }
+
+    pointer allocate (size_type n)
+    {
+      tick (TK_ALLOC);
+      return pointer (static_cast<T *> (LEDGER ().allocate (static_cast<size_t> (n), sizeof (T), alignof (T), id)));
+    }
+    // allocate with a locality hint (the container passes one when it reallocates)
+    pointer allocate (size_type n, const_void_pointer hint)
+    {
+      (void) hint.get ();
+      return allocate (n);
+    }
+
+    void deallocate (pointer p, size_type n) noexcept
+    {
+      LEDGER ().deallocate (p.get (), static_cast<size_t> (n), sizeof (T), id, Cfg::always_equal);
+    }
+
+    FancyLedgerAlloc select_on_container_copy_construction () const noexcept
+    {
+      ++ASTATS ().soccc_calls;
+      return FancyLedgerAlloc (Cfg::mark_soccc ? (id ^ SOCCC_MARK) : id);
+    }
+
+    template <typename U>
+    bool operator== (const FancyLedgerAlloc<U, Cfg>& o) const noexcept { return Cfg::always_equal || id == o.id; }
+    template <typename U>
+    bool operator!= (const FancyLedgerAlloc<U, Cfg>& o) const noexcept { return ! (*this == o); }
+  };
+
   template <typename A> struct is_ledger_alloc : std::false_type { };
+  template <typename T, typename C> struct is_ledger_alloc<FancyLedgerAlloc<T, C> > : std::true_type { };
   template <typename T, typename C> struct is_ledger_alloc<LedgerAlloc<T, C> > : std::true_type { };
 
   template <typename A>
